@@ -45,6 +45,7 @@ type c04Spec struct {
 	Propagate       bool      `json:"propagate,omitempty"`   // stateless HTTP: StreamableHTTPOptions.PropagateRequestCancellation
 	BlockAt         int       `json:"block_at_ms,omitempty"` // sdk mode: a client notification sent at this instant whose server handler blocks ...
 	BlockMs         int       `json:"block_ms,omitempty"`    // ... for this long (0: none): cancellation notices must not queue behind it
+	DrainCancel     int       `json:"drain_cancel,omitempty"` // sdk mode, persistent transports: at the end this many parked calls are cancelled while the callee is already draining under a graceful Close
 }
 
 func genC04(r *vh.Rand) c04Spec {
@@ -122,6 +123,9 @@ func genC04(r *vh.Rand) c04Spec {
 	if s.Transport == "http" && r.Bool() {
 		s.NoStandaloneSSE = true // server->client traffic can then only travel on request streams
 	}
+	if s.Mode == "sdk" && (s.Transport == "mem" || s.Transport == "pipe") && r.Chance(1, 3) {
+		s.DrainCancel = r.Range(1, 3)
+	}
 	return s
 }
 
@@ -130,6 +134,7 @@ func TestVerifC04(t *testing.T) {
 		Property: "C04",
 		Cases:    vh.Pick(2000, 60000),
 		Rule: "each case: 1..8 concurrent in-flight calls; a random subset is cancelled at instants before/at/after the response instant. mode sdk (3/5): real pair over mem|pipe|sse|http|http-json with a parking tool that records ctx cancellation per nonce; " +
+			"every 6th case: a raw JSON-RPC caller (ids: small integers, integers beyond 2^53, digit-only strings next to the equal number; optionally one in-flight id re-sent) parks calls in an SDK server and cancels a subset with notifications/cancelled: exactly those handlers observe cancellation, at that instant; " +
 			"mode script (2/5): ClientSession vs scripted peer {answers, never answers, answers 0 ms..10 s late, cannot be sent the cancelled notification (bounded or forever)}. " +
 			"non-trivial: >=2 calls in flight together and >=1 cancelled while another stays in flight. distinct = distinct boundary event-kind sequences",
 		MinNontrivial: 100,
@@ -137,6 +142,15 @@ func TestVerifC04(t *testing.T) {
 			"a writer stalled forever is released only when the peer vanishes (pipes ignore contexts)"},
 	}
 	vh.Run(t, cfg, func(c *vh.Case) {
+		if c.Index%6 == 5 {
+			// raw-caller mode: see c04raw_test.go
+			rs := genC04Raw(c.R)
+			c.SetSpec(rs)
+			if c.Bubble("", func() { runC04Raw(c, rs) }) {
+				decideC04Raw(c, rs)
+			}
+			return
+		}
 		spec := genC04(c.R)
 		c.SetSpec(spec)
 		ok := c.Bubble("", func() {
@@ -179,6 +193,9 @@ func runC04SDK(c *vh.Case, spec c04Spec) {
 	release := map[int]chan struct{}{}
 	for _, cs := range spec.Calls {
 		release[cs.N] = make(chan struct{})
+	}
+	for n := 9100; n < 9110; n++ {
+		release[n] = make(chan struct{}) // calls of the drain-then-cancel epilogue: never released
 	}
 	release[9000], release[9001] = make(chan struct{}), make(chan struct{})
 	close(release[9000])
@@ -360,6 +377,36 @@ func runC04SDK(c *vh.Case, spec c04Spec) {
 	}
 	res, err := cs.CallTool(ctx, &mcp.CallToolParams{Name: "park", Arguments: map[string]any{"nonce": 9000}})
 	log.Add("followup", "what", "call", "outcome", c04Classify(textOf(res), err), "want", "ok:nonce-9000")
+	if spec.DrainCancel > 0 && pair.SS != nil {
+		// The callee starts a graceful Close while calls are parked in its handlers, and only then do the
+		// callers give up: the cancellation must still reach exactly those handlers (at that instant), which
+		// lets the Close finish.
+		var dwg sync.WaitGroup
+		dctx, dcancel := context.WithCancel(ctx)
+		for i := 0; i < spec.DrainCancel; i++ {
+			n := 9100 + i
+			dwg.Add(1)
+			go func() {
+				defer dwg.Done()
+				log.Add("call-start", "n", n)
+				res, err := cs.CallTool(dctx, &mcp.CallToolParams{Name: "park", Arguments: map[string]any{"nonce": n}})
+				log.Add("call-return", "n", n, "outcome", c04Classify(textOf(res), err))
+			}()
+		}
+		synctestWait()
+		dwg.Add(1)
+		go func() {
+			defer dwg.Done()
+			log.Add("drain-close-called")
+			pair.SS.Close()
+			log.Add("drain-close-returned")
+		}()
+		time.Sleep(ms(2))
+		log.Add("drain-cancel")
+		dcancel()
+		dwg.Wait()
+		log.Add("drain-done")
+	}
 	// release every handler that is still parked (never-released, never-cancelled ones), then close
 	log.Add("closing")
 	for _, call := range spec.Calls {
@@ -661,6 +708,39 @@ func decideC04(c *vh.Case, spec c04Spec) {
 	if noticeFor[0] > 0 {
 		c.Violate("cancel-notice-mismatch", "peer received %d cancellation notice(s) whose requestId matches no request it was sent", noticeFor[0])
 		return
+	}
+	if spec.DrainCancel > 0 {
+		var dcT, closeRet int64 = -1, -1
+		for _, e := range evs {
+			switch e.Kind {
+			case "drain-cancel":
+				dcT = e.T
+			case "drain-close-returned":
+				closeRet = e.T
+			}
+		}
+		if dcT >= 0 {
+			for i := 0; i < spec.DrainCancel; i++ {
+				n := 9100 + i
+				if _, ok := hstart[n]; !ok {
+					continue // the call never reached its handler before the Close began: nothing to cancel
+				}
+				hd, ok := hdone[n]
+				if !ok || hd.T != dcT {
+					c.Violate("handler-not-cancelled/draining", "call %d was cancelled at %dus while the callee was draining under a graceful Close; its handler observed cancellation: %v (at %dus)", n, dcT, ok, hd.T)
+					return
+				}
+				if r, ok := ret[n]; !ok || r.T != dcT || !strings.HasPrefix(fstr(r, "outcome"), "ctx") {
+					c.Violate("not-prompt", "call %d cancelled at %dus (callee draining) returned %v at %dus with %q", n, dcT, ok, r.T, fstr(r, "outcome"))
+					return
+				}
+			}
+			if closeRet != dcT {
+				c.Violate("close-outlives-cancelled-handlers", "the callee's graceful Close returned at %dus although its last handlers were cancelled at %dus", closeRet, dcT)
+				return
+			}
+			c.Count("drain_cancel_calls", spec.DrainCancel)
+		}
 	}
 	c.Count("calls", len(spec.Calls))
 	if inflightPairs >= 2 && cancelledWhileOtherInFlight {
